@@ -418,6 +418,20 @@ class SimFelicaLiteS(SimFelicaLite):
         return ST_OK, b""
 
 
+class SimFelicaLiteSCountRC(SimFelicaLiteS):
+    """Lite-S variant whose write counter also counts writes to the RC block
+    (every successful Write Without Encryption advances WCNT).  SimFelicaLiteS
+    follows the recorded transcript of tests/test_tag_tt3_sony.py, where the
+    RC write of an authentication is not counted; a reader that reads WCNT
+    before every write with MAC works with either policy, so checks may
+    generate both."""
+
+    def _store(self, n, data):
+        super(SimFelicaLiteSCountRC, self)._store(n, data)
+        if n == RC:
+            self.wcnt = min(self.wcnt + 1, 0xFFFFFF)
+
+
 def make(product, **kw):
     """product: "lite" | "lites" """
     return (SimFelicaLiteS if product == "lites" else SimFelicaLite)(**kw)
